@@ -124,7 +124,7 @@ static bool runExpr(const std::string &text, std::string &tree, std::string &pri
 }
 
 static bool runStmt(const std::string &text, std::string &tree, std::string &printed) {
-  parser_t parser;
+  static parser_t parser;      // one parser for all cases, as the repository's parser tests do
   parser.parseSource(text);
   if (!parser.success) return false;
   tree = "[\"root\"," + dumpChildren(parser.root) + "]";
@@ -143,7 +143,7 @@ int main(int argc, char **argv) {
     mj::Value c = mj::parse(line);
     const std::string text = c["text"].str();
     const bool stmt = c["mode"].str() == "stmt";
-    rc::watchdog(20);
+    rc::watchdog(getenv("REPLAY_WATCHDOG") ? atoi(getenv("REPLAY_WATCHDOG")) : 60);
     std::string out = "{\"beh\":" + std::to_string(rc::cur_beh);
     try {
       std::string t1, p1, t2, p2;
